@@ -8,12 +8,13 @@ CLI_PROPS = {"C13", "C14", "C15", "C16", "C17", "C18", "C19", "C20"}
 
 # which sources feed which property (order = order of execution)
 PLAN = {
-    "C01": ["exprparens", "corpus"],
-    "C02": ["exprparens", "corpus"],
+    "C01": ["exprparens", "trivia", "corpus"],
+    "C02": ["exprparens", "trivia", "corpus"],
+    "C03": ["trivia", "corpus"],
     "C04": ["strings", "literals", "corpus"],
     "C05": ["exprparens"],
-    "C06": ["exprparens", "corpus"],
-    "C07": ["exprparens", "corpus"],
+    "C06": ["exprparens", "trivia", "corpus"],
+    "C07": ["exprparens", "trivia", "corpus"],
 }
 
 LUAU_CTX = {"compound", "ifexp_then", "ifexp_else"}
@@ -83,6 +84,25 @@ def src_corpus(tier, seed):
     return cases, {"module": "(corpus: tests/inputs*)", "cases": len(cases), "states": 0, "distinct": 0}
 
 
+def src_trivia(tier, seed):
+    raw, st = tlc_generate("MC_Trivia", "MC_Trivia_%s.cfg" % tier, "g_trivia_" + tier)
+    raw.sort(key=lambda c: json.dumps(c, sort_keys=True))
+    cases = []
+    for i, c in enumerate(raw):
+        g = c["meta"]["group"]
+        sweep = {"column_width": "all"}
+        if g in ("block", "func"):
+            sweep["collapse_simple_statement"] = ["Never", "FunctionOnly", "ConditionalOnly", "Always"]
+        if g == "call":
+            sweep["call_parentheses"] = ["Always", "NoSingleString", "NoSingleTable", "None", "Input"]
+        c["id"] = "tv%d" % i
+        c["sweep"] = sweep
+        c["layout"]["profile"] = "spaced"
+        c["want"] = ["reformat", "lines"]
+        cases.append(c)
+    return cases, st
+
+
 def src_strings(tier, seed):
     cfgs = ["MC_Strings_quick.cfg", "MC_Strings_quick2.cfg"] if tier == "quick" else ["MC_Strings_thorough.cfg", "MC_Strings_thorough2.cfg"]
     raw, stats = [], {"module": "MC_Strings", "cfg": cfgs, "states": 0, "distinct": 0, "wall": 0}
@@ -123,6 +143,7 @@ def src_literals(tier, seed):
 
 
 SOURCES = {
+    "trivia": src_trivia,
     "strings": src_strings,
     "literals": src_literals,
     "exprparens": src_exprparens,
